@@ -90,6 +90,24 @@ contract(
     from_property="bound ... by def ... or a function parameter (parameters belong to the function's own scope, its name to the enclosing one)",
 )
 
+LAMBDA_OPENED = ("len(self.contexts) == old(len(self.contexts)) + 1 and forall(lambda k: self.contexts[k] == old(self.contexts)[k], 0, old(len(self.contexts)))")
+contract(
+    A + "CtxAwareTransformer.visit_Lambda", "C02", params=dict(self=T_, node=Opaque("lambdanode")), modifies=["self.contexts"], externals=VISIT_EXT, config={"default_set_elem": Str},
+    requires={"inside-a-transform": "len(self.contexts) >= 2"},
+    locals={"args": Opaque("arguments"), "argchain": Opaque("argchain")},
+    abstract=[dict(line_contains="args = node.args", may_raise=False, reason="parameter list of the node"),
+              dict(line_contains="argchain = [", may_raise=False, reason="parameter groups"),
+              dict(line_contains="if args.vararg is not None:", may_raise=False, reason="*args"),
+              dict(line_contains="if args.kwarg is not None:", may_raise=False, reason="**kwargs"),
+              dict(line_contains="self.ctxupdate(a.arg for a in", may_raise=False, havoc=["self.contexts"], keep_below_top=True,
+                   reason="binds the parameter names: ASSUMED to change the innermost scope only (ctxupdate's verified contract)")],
+    asserts=[dict(before="args = node.args", label="a-fresh-scope-is-opened-before-the-parameters-are-bound-and-the-enclosing-scopes-are-untouched",
+                  clause=LAMBDA_OPENED + " and forall_str(lambda x: not (x in self.contexts[len(self.contexts) - 1]))"),
+             dict(before="self.generic_visit(node)", label="the-body-is-visited-inside-that-scope", clause=LAMBDA_OPENED)],
+    ensures={"the-scope-is-closed-again": "len(self.contexts) == old(len(self.contexts))"},
+    from_property="bound ... by ... a function parameter (a lambda's parameters are names of its body - `lambda x: not x` - and of nothing else; added with fix e08f775)",
+)
+
 
 # ---- the binding visitors: each one binds exactly the names Python binds, in the innermost scope ------------------------------
 ALIAS = Rec("alias", name=Str, asname=Union(NoneT, Str))
